@@ -44,13 +44,17 @@ Section CheckPV.
 
   Lemma pmsg_eqb_eq : forall a b, pmsg_eqb a b = true -> a = b.
   Proof.
-    intros [x|f1 t1 tm1 lt1 i1|f1 t1 tm1 r1] [y|f2 t2 tm2 lt2 i2|f2 t2 tm2 r2] H; cbn in H; try discriminate.
+    intros [x|f1 t1 tm1 lt1 i1|f1 t1 tm1 r1|f1 t1 tm1|f1 t1 tm1] [y|f2 t2 tm2 lt2 i2|f2 t2 tm2 r2|f2 t2 tm2|f2 t2 tm2] H; cbn in H; try discriminate.
     - apply msg_eqb_eq in H. subst. reflexivity.
     - repeat (apply andb_true_iff in H as [H ?]).
       repeat match goal with E : (_ =? _) = true |- _ => apply Nat.eqb_eq in E end. subst. reflexivity.
     - repeat (apply andb_true_iff in H as [H ?]).
       repeat match goal with E : (_ =? _) = true |- _ => apply Nat.eqb_eq in E end.
       match goal with E : Bool.eqb _ _ = true |- _ => apply eqb_prop in E end. subst. reflexivity.
+    - repeat (apply andb_true_iff in H as [H ?]).
+      repeat match goal with E : (_ =? _) = true |- _ => apply Nat.eqb_eq in E end. subst. reflexivity.
+    - repeat (apply andb_true_iff in H as [H ?]).
+      repeat match goal with E : (_ =? _) = true |- _ => apply Nat.eqb_eq in E end. subst. reflexivity.
   Qed.
 
   Lemma memb_p_In : forall m l, memb_p m l = true -> In m l.
